@@ -73,10 +73,10 @@ def make_alignments(kinds, seq, variants, seq_b=None):
             if spec.get("mate_of_prev"):
                 if prev is None:
                     return None, None
-                a.update(name=prev["name"], pos_chrom="chrA", start=prev["start"], flag=1 | 0x80, mate={"chrom": "chrA", "start": prev["start"]}, rg=prev["rg"])
+                a.update(name=prev["name"], pos_chrom="chr2", start=prev["start"], flag=1 | 0x80, mate={"chrom": "chr2", "start": prev["start"]}, rg=prev["rg"])
                 m["name"] = prev["name"]
             elif spec["placed"]:
-                a.update(pos_chrom="chrA", start=50)
+                a.update(pos_chrom="chr2", start=50)
             m["primary"] = False
             m["unmapped"] = True
             alns.append(a)
@@ -116,9 +116,9 @@ def make_alignments(kinds, seq, variants, seq_b=None):
                 alleles[vi] = al
                 obs[vi] = al
         q, cig = synth.hap_read(seq, variants, alleles, start, end)
-        on = "chrA"
+        on = "chr2"
         if spec.get("other_contig"):
-            on, start, end = "chrB", 60 + i, 90 + i
+            on, start, end = "chr10", 60 + i, 90 + i
             q, cig = seq_b[start:end], [(0, end - start)]
             m["other_contig"] = True
         a = {"name": name, "chrom": on, "start": start, "cigar": cig, "seq": q, "rg": spec.get("rg", "rg_S1") if k not in NEEDS_PREV else m["rg"], "tags": []}
@@ -129,7 +129,7 @@ def make_alignments(kinds, seq, variants, seq_b=None):
         m["hap"] = hap
         if spec.get("mate"):
             flag |= 1 | 0x80
-            a["mate"] = {"chrom": "chrA", "start": prev["start"]}
+            a["mate"] = {"chrom": "chr2", "start": prev["start"]}
         if spec.get("supp"):
             flag |= 0x800
             m["primary"] = False
@@ -163,7 +163,7 @@ def build(inst, d, swap_set=None):
     design = DESIGNS[inst["design"]]
     two = "s2" in design
     samples = ["S1"] + (["S2"] if two else [])
-    vcf = synth.VcfText(samples, contigs=[("chrA", len(seq)), ("chrB", 200)], formats=["GT", "PS"])
+    vcf = synth.VcfText(samples, contigs=[("chr2", len(seq)), ("chr10", 200)], formats=["GT", "PS"])
     for vi, v in enumerate(variants):
         calls = []
         for s in samples:
@@ -176,12 +176,12 @@ def build(inst, d, swap_set=None):
                 if swap_set is not None and s == "S1" and sets[vi] == swap_set:
                     a0, a1 = a1, a0
                 calls.append({"GT": f"{a0}|{a1}", "PS": str(sets[vi])})
-        vcf.add("chrA", v.pos, v.ref, v.alts, calls, fmt=["GT", "PS"])
+        vcf.add("chr2", v.pos, v.ref, v.alts, calls, fmt=["GT", "PS"])
     vcf_path = vcf.write(os.path.join(d, "phased.vcf.gz" if swap_set is None else "swapped.vcf.gz"))
-    fasta = synth.write_fasta(os.path.join(d, "ref.fa"), [("chrA", seq), ("chrB", synth.make_reference(seed + 1, 200))])
+    fasta = synth.write_fasta(os.path.join(d, "ref.fa"), [("chr2", seq), ("chr10", synth.make_reference(seed + 1, 200))])
     alns, meta = make_alignments(inst["kinds"], seq, variants, synth.make_reference(seed + 1, 200))
     bam = os.path.join(d, "in.bam")
-    order = synth.write_bam(bam, [("chrA", len(seq)), ("chrB", 200)], alns, read_groups=[{"ID": "rg_S1", "SM": "S1"}, {"ID": "rg_S2", "SM": "S2"}])
+    order = synth.write_bam(bam, [("chr2", len(seq)), ("chr10", 200)], alns, read_groups=[{"ID": "rg_S1", "SM": "S1"}, {"ID": "rg_S2", "SM": "S2"}])
     return vcf_path, fasta, bam, [meta[i] for i in order]
 
 
@@ -236,10 +236,10 @@ def judge(inst):
     inp = synth.read_bam(bam)
     # ---- conservation
     if region:
-        # chrA:90-150 -> [89, 150): 1-based closed intervals; a bare contig name selects the whole contig.  An alignment
+        # chr2:90-150 -> [89, 150): 1-based closed intervals; a bare contig name selects the whole contig.  An alignment
         # belongs to the output iff it overlaps a region of its contig; the output keeps the order of the input
         # whatever the order in which the regions are named
-        ivs = []  # intervals on chrA (the contig with variants)
+        ivs = []  # intervals on chr2 (the contig with variants)
         sel = []
         for spec in region:
             if ":" in spec:
@@ -248,9 +248,9 @@ def judge(inst):
                 sel.append((c_, int(a_) - 1, int(b_)))
             else:
                 sel.append((spec, 0, 10**9))
-            if sel[-1][0] == "chrA":
+            if sel[-1][0] == "chr2":
                 ivs.append(sel[-1][1:])
-        tids = {"chrA": 0, "chrB": 1}
+        tids = {"chr2": 0, "chr10": 1}
         keep = [i for i, r in enumerate(inp) if r["tid"] >= 0 and any(tids[c_] == r["tid"] and r["start"] < hi and _end(r) > lo for c_, lo, hi in sel)]
     else:
         keep = list(range(len(inp)))
@@ -489,18 +489,19 @@ def option_vectors(T):
         {},
         {"tag_supplementary": True},
         {"ignore_linked_read": True},
-        {"regions": ["chrA:90-150"]},
+        {"regions": ["chr2:90-150"]},
         {"output_threads": 2},
         {"use_reference": False},
         {"ignore_read_groups": True, "given_samples": ["S1"]},
         {"linked_read_distance_cutoff": 50},
-        {"regions": ["chrA:50-110", "chrA:111-200"]},
+        {"regions": ["chr2:50-110", "chr2:111-200"]},
         # regions named against the order of the input: contigs reversed, intervals of one contig reversed
-        {"regions": ["chrB", "chrA"]},
-        {"regions": ["chrA:111-200", "chrA:50-110"]},
+        {"regions": ["chr10", "chr2"]},
+        {"regions": ["chr2", "chr10"]},
+        {"regions": ["chr2:111-200", "chr2:50-110"]},
     ]
     if T:
-        ov += [{"tag_supplementary": True, "ignore_linked_read": True}, {"regions": ["chrA:90-150"], "tag_supplementary": True}, {"use_reference": False, "ignore_read_groups": True, "given_samples": ["S1"]}]
+        ov += [{"tag_supplementary": True, "ignore_linked_read": True}, {"regions": ["chr2:90-150"], "tag_supplementary": True}, {"use_reference": False, "ignore_read_groups": True, "given_samples": ["S1"]}]
     return ov
 
 
@@ -578,19 +579,19 @@ def judge_poly(inst):
         hap_alleles = [[inst["gts"][vi][j] for vi in range(3)] for j in range(ploidy)]
     else:
         hap_alleles = [[(haps[vi][j] if ploidy == 3 else haps[j][vi]) for vi in range(3)] for j in range(ploidy)]
-    vcf = synth.VcfText(["S1"], contigs=[("chrA", len(seq))], formats=["GT", "PS"])
+    vcf = synth.VcfText(["S1"], contigs=[("chr2", len(seq))], formats=["GT", "PS"])
     for vi, v in enumerate(variants):
-        vcf.add("chrA", v.pos, v.ref, v.alts, [{"GT": "|".join(str(hap_alleles[j][vi]) for j in range(ploidy)), "PS": "61"}], fmt=["GT", "PS"])
+        vcf.add("chr2", v.pos, v.ref, v.alts, [{"GT": "|".join(str(hap_alleles[j][vi]) for j in range(ploidy)), "PS": "61"}], fmt=["GT", "PS"])
     vcf_path = vcf.write(os.path.join(d, "p.vcf.gz"))
-    fasta = synth.write_fasta(os.path.join(d, "ref.fa"), [("chrA", seq)])
+    fasta = synth.write_fasta(os.path.join(d, "ref.fa"), [("chr2", seq)])
     a_, b_ = inst["span"]
     alns = []
     for i, h in enumerate(inst["reads"]):
         al = [hap_alleles[h][vi] if a_ <= vi <= b_ else 0 for vi in range(3)]
         q, cig = synth.hap_read(seq, variants, al, POS[a_] - 10 - i, POS[b_] + 10 + i)
-        alns.append({"name": f"r{i}", "chrom": "chrA", "start": POS[a_] - 10 - i, "cigar": cig, "seq": q, "rg": "rg_S1"})
+        alns.append({"name": f"r{i}", "chrom": "chr2", "start": POS[a_] - 10 - i, "cigar": cig, "seq": q, "rg": "rg_S1"})
     bam = os.path.join(d, "in.bam")
-    synth.write_bam(bam, [("chrA", len(seq))], alns, read_groups=[{"ID": "rg_S1", "SM": "S1"}])
+    synth.write_bam(bam, [("chr2", len(seq))], alns, read_groups=[{"ID": "rg_S1", "SM": "S1"}])
     out = os.path.join(d, "out.bam")
     viols = []
     try:
